@@ -262,7 +262,7 @@ parse_eacem(vbi_trigger *t, char *s1, unsigned int nuid, double now)
 				break;
 			}
 
-			for (text = d; quote || (c = *s) != delim; s++) {
+			for (text = d; c = *s, quote || c != delim; s++) {
 				if (c == '"')
 					quote ^= TRUE;
 				else if (c == '%') {
@@ -475,7 +475,7 @@ parse_atvef(vbi_trigger *t, char *s1, double now)
 				break;
 			}
 
-			for (text = d; quote || (c = *s) != ']'; s++) {
+			for (text = d; c = *s, quote || c != ']'; s++) {
 				if (c == '"')
 					quote ^= TRUE;
 				else if (c == '%') {
